@@ -12,7 +12,9 @@ CLAIM = {
     "category": "proof",
     "text": "Samplers, for every nsamples / nburnout (loops cut): mhcustom burns in from x0 and then collects exactly "
             "nsamples states x_{k+1} = step(x_k) starting from the burned-in state, weights 1/nsamples; mh runs nburnout "
-            "proposals from x0, then collects nsamples states each being the previous state or the accepted proposal, "
+            "proposals from x0, then collects nsamples states each being the previous state or the accepted proposal "
+            "(one standard-normal draw per step of the full shape and dtype of the state, for states of rank 1 and 2; "
+            "accepted iff log p(proposal) - log p(state) > 0 or log u_i is below it), "
             "weights 1/nsamples; dummy1d normalises its weights by their sum. _integrate, for every number of samples "
             "(partial-sum invariant): sum_i f(x_i) w_i with one evaluation per sample. _MCQuad.backward on abstract "
             "differentiable f and log p: the augmented function returns per sample (J_thetaf^T g, ((f - E)·g) "
